@@ -31,15 +31,21 @@ EXTENDS Integers, Sequences, FiniteSets, TLC
 
 AllSyms == {"b", "E", "e", "D", "d", "M", "S", "Z", "P", "R", "C", "F", "L", "V", "T", "G", "H"}
 
-CP(x) == CASE x = "b" -> 98      [] x = "E" -> 69      [] x = "e" -> 101   [] x = "D" -> 201   [] x = "d" -> 233
+CPOf(x) == CASE x = "b" -> 98      [] x = "E" -> 69      [] x = "e" -> 101   [] x = "D" -> 201   [] x = "d" -> 233
            [] x = "M" -> 769     [] x = "S" -> 65039   [] x = "Z" -> 8205  [] x = "P" -> 128512
            [] x = "R" -> 127462  [] x = "C" -> 13      [] x = "F" -> 10
            [] x = "L" -> 4352    [] x = "V" -> 4449    [] x = "T" -> 4520  [] x = "G" -> 44032 [] x = "H" -> 44033
 
-Class(x) == CASE x \in {"b", "E", "e"} -> "Base" [] x \in {"D", "d"} -> "Precomposed"
+ClassOf(x) == CASE x \in {"b", "E", "e"} -> "Base" [] x \in {"D", "d"} -> "Precomposed"
               [] x \in {"M", "S"} -> "Extend"    [] x = "Z" -> "ZWJ"  [] x = "P" -> "ExtPict" [] x = "R" -> "RI"
               [] x = "C" -> "CR" [] x = "F" -> "LF"
               [] x = "L" -> "L"  [] x = "V" -> "V"  [] x = "T" -> "T" [] x = "G" -> "LV" [] x = "H" -> "LVT"
+
+\* the same as tables (TLC evaluates a constant function once; applying it is a lookup)
+CPTable == [x \in AllSyms |-> CPOf(x)]
+ClassTable == [x \in AllSyms |-> ClassOf(x)]
+CP(x) == CPTable[x]
+Class(x) == ClassTable[x]
 
 \* ------------------------------------------------------------------ sequences of sequences
 RECURSIVE Flat(_)
@@ -108,8 +114,10 @@ RECURSIVE Offsets(_, _)
 Offsets(cs, o) == IF cs = << >> THEN {o} ELSE {o} \cup Offsets(Tail(cs), o + Len(Head(cs)))
 
 \* ------------------------------------------------------------------ UAX #15: NFC
-Decomp(x) == CASE x = "D" -> <<"E", "M">> [] x = "d" -> <<"e", "M">>
+DecompOf(x) == CASE x = "D" -> <<"E", "M">> [] x = "d" -> <<"e", "M">>
                [] x = "G" -> <<"L", "V">> [] x = "H" -> <<"L", "V", "T">> [] OTHER -> <<x>>
+DecompTable == [x \in AllSyms |-> DecompOf(x)]
+Decomp(x) == DecompTable[x]
 CCC(x) == IF x = "M" THEN 230 ELSE 0                 \* canonical combining class
 \* primary composite of a starter and a following character ("" = none)
 Primary(a, c) == CASE a = "E" /\ c = "M" -> "D" [] a = "e" /\ c = "M" -> "d"
@@ -156,12 +164,13 @@ Cmp(a, b) == IF Equal(a, b) THEN 0 ELSE IF Less(a, b) THEN -1 ELSE 1
 \* substrings: the needle occurs at character index i (0-based) when its characters are the
 \* characters i .. i+k-1 of the string.  Needles are non-empty.
 OccursAt(h, n, i) == i + Len(n) <= Len(h) /\ SubSeq(h, i + 1, i + Len(n)) = n
-Occurrences(h, n) == {i \in 0..(Len(h) - 1) : OccursAt(h, n, i)}
-Contains(h, n) == Occurrences(h, n) # {}
-SetMin(S) == CHOOSE x \in S : \A y \in S : x <= y
-IndexOf(h, n) == IF Occurrences(h, n) = {} THEN -1 ELSE SetMin(Occurrences(h, n))
-\* first occurrence at or after character index `from`
-NextOcc(h, n, from) == LET O == {i \in from..(Len(h) - 1) : OccursAt(h, n, i)} IN IF O = {} THEN -1 ELSE SetMin(O)
+Occurrences(h, n) == {i \in 0..(Len(h) - Len(n)) : OccursAt(h, n, i)}
+Contains(h, n) == \E i \in 0..(Len(h) - Len(n)) : OccursAt(h, n, i)                     \* h.contains(n)
+\* first occurrence at or after character index `from` (-1: none)
+RECURSIVE NextOcc(_, _, _)
+NextOcc(h, n, from) == IF from + Len(n) > Len(h) THEN -1
+                       ELSE IF OccursAt(h, n, from) THEN from ELSE NextOcc(h, n, from + 1)
+IndexOf(h, n) == NextOcc(h, n, 0)                                                       \* h.index(of: n)
 \* split: left-to-right, non-overlapping occurrences; the parts are the character runs between them
 RECURSIVE SplitFrom(_, _, _)
 SplitFrom(h, n, from) == LET i == NextOcc(h, n, from) IN
@@ -173,7 +182,7 @@ RECURSIVE JoinText(_, _)
 JoinText(parts, sep) == IF Len(parts) = 0 THEN << >> ELSE IF Len(parts) = 1 THEN Text(parts[1])
                         ELSE Text(parts[1]) \o Text(sep) \o JoinText(Tail(parts), sep)
 Join(parts, sep) == Chars(JoinText(parts, sep))                    \* String.join(parts, separator: sep)
-ReplaceAll(h, n, r) == Join(Split(h, n), r)                        \* h.replaceAll(of: n, with: r)
+ReplaceAll(h, n, r) == IF Contains(h, n) THEN Join(Split(h, n), r) ELSE h    \* h.replaceAll(of: n, with: r)
 Lower(x) == IF x = "E" THEN "e" ELSE IF x = "D" THEN "d" ELSE x
 ToLower(a) == LET v == Text(a) IN Chars([i \in 1..Len(v) |-> Lower(v[i])])
 
@@ -217,6 +226,7 @@ OffsetOfChar(h, i) == Len(Flat(SubSeq(h, 1, i)))
 NeedleLaws(h, n) ==                   \* h, n values, n non-empty
   /\ Contains(h, n) <=> IndexOf(h, n) >= 0
   /\ Contains(h, n) <=> Count(h, n) > 0
+  /\ Contains(h, n) => IndexOf(h, n) \in Occurrences(h, n) /\ \A i \in Occurrences(h, n) : IndexOf(h, n) <= i
   /\ {OffsetOfChar(h, i) : i \in Occurrences(h, n)} = OccOffsets(h, n)
   /\ JoinText(Split(h, n), n) = Text(h)
   /\ ReplaceAll(h, n, n) = h
